@@ -425,7 +425,11 @@ def split_case(res, rows, infmt, outfmt, corr=None, fits=True):
     with tempfile.TemporaryDirectory() as d:
         src = os.path.join(d, "sample." + ("pdb" if infmt == "PDB" else "cif"))
         with open(src, "w") as f:
-            f.write(g4.emit_pdb(rows) if infmt == "PDB" else g4.emit_cif(rows))
+            text = g4.emit_pdb(rows) if infmt == "PDB" else g4.emit_cif(rows)
+            if infmt != "PDB" and len(rows) % 4 == 1:
+                # reserved words of CIF are case-insensitive (chosen by the number of rows, so that a replay repeats it)
+                text = text.replace("data_g4", "DATA_g4", 1).replace("\nloop_\n", "\nLOOP_\n", 1)
+            f.write(text)
         argv = sys.argv
         sys.argv = ["splitter", "-o", os.path.join(d, "out"), "-f", outfmt, src]
         buf = io.StringIO()
